@@ -501,3 +501,56 @@ def r10_split_history(ctx):
 
 
 RULES.append(r10_split_history)
+
+
+def r11_cut_names_injective(ctx):
+    """C11.R11: the name under which a cut edge's stand-in source and sink nodes are created identifies the cut edge — two different cut edges
+    never share it, for any node, input and output names (re-joining the parts matches stand-ins by that name).  Decided on the symbolic
+    value of CutEdge.name for a cut edge with six unconstrained fields: every field must reach the digested text, and no piece of text may
+    embed two or more of the free-form fields side by side with fixed separators (a separator occurring inside a name moves the boundary:
+    'a' + '.' + 'b.c' and 'a.b' + '.' + 'c' read the same).  The whole record (its generated hash / repr, or a tuple of the fields) is
+    unambiguous by construction."""
+    from ..terms import FStr, Op, subterms, Term, Sym, App
+    repo = ctx.repo
+    cq = f"{G}.split.CutEdge"
+    fi = repo.func(f"{cq}.name")
+    ctx.analysed(fi.qual)
+    ci = repo.classes[cq]
+    fields = [f for f in ci.fields]
+    ctx.floor("C11.R11.fields", len(fields), 6)
+    cut = Obj(cq, {f: Sym(f"<{f}>") for f in fields}, name="CUT", frozen=True)
+    ps = [p for p in Interp(repo).explore(fi, args={"self": cut}) if p.exit[0] == "return"]
+    ctx.evals(len(ps))
+    if len(ps) != 1:
+        ctx.undecided("C11.R11", loc(fi), f"CutEdge.name is not a single returning path ({len(ps)})")
+        return
+    v = ps[0].exit[1]
+    whole = any(isinstance(t, Obj) and t.name == "CUT" for t in subterms(v))
+    k = vkey(v)
+    missing = [f for f in fields if f"<{f}>" not in k] if not whole else []
+    if missing:
+        ctx.violation("C11.R11", fi.qual, loc(fi), "every field of the cut edge reaches its name",
+                      f"name = {k[:160]}: the field(s) {missing} do not enter it, so two cut edges differing only there get the same stand-in nodes")
+        return
+    glued = None
+    for t in subterms(v):
+        direct = []
+        if isinstance(t, FStr):
+            direct = [x for x in t.parts if isinstance(x, Sym) and x.name.startswith("<")]
+        elif isinstance(t, Op) and t.op in ("+", "add", "Add"):
+            direct = [x for x in t.operands if isinstance(x, Sym) and x.name.startswith("<")]
+        elif isinstance(t, App) and t.fname.endswith(".join"):
+            direct = [x for a in t.args for x in (a if isinstance(a, (list, tuple)) else [a]) if isinstance(x, Sym) and x.name.startswith("<")]
+        if len(direct) >= 2:
+            glued = (t, direct)
+            break
+    if glued:
+        ctx.violation("C11.R11", fi.qual, loc(fi), "cut name is unambiguous",
+                      f"the digested text {vkey(glued[0])[:150]} embeds the free-form fields {[x.name for x in glued[1]]} side by side with fixed separators: names that "
+                      f"contain the separator shift the boundary (source 'a' output 'b.c' and source 'a.b' output 'c' give the same text), so two distinct cut edges "
+                      f"share one name and the re-joined graph wires a consumer to the wrong producer")
+    else:
+        ctx.ok("C11.R11", loc(fi), f"CutEdge.name = {k[:80]}: " + ("digest of the whole record" if whole else "every field enters separately"))
+
+
+RULES.append(r11_cut_names_injective)
